@@ -134,6 +134,25 @@ type expectation struct {
 	bind func(m *mLake, real *rLake, newCommit *rCommit) string
 }
 
+// msAdd and msSub are multiset union and (saturating) difference.
+func msAdd(a, b []string) []string { return append(append([]string(nil), a...), b...) }
+
+func msSub(a, b []string) []string {
+	n := map[string]int{}
+	for _, x := range b {
+		n[x]++
+	}
+	var out []string
+	for _, x := range a {
+		if n[x] > 0 {
+			n[x]--
+			continue
+		}
+		out = append(out, x)
+	}
+	return out
+}
+
 func sortedCopy(s []string) []string {
 	c := append([]string(nil), s...)
 	sort.Strings(c)
@@ -423,7 +442,33 @@ func (cfg *hConfig) expect(ctx context.Context, m *mLake, op hOp) (lk.Op, expect
 			if !sameSet(rc.Dels, realIDs(m, dels)) || !sameSet(rc.Adds, realIDs(m, adds)) {
 				return fmt.Sprintf("merge commit dels=%v adds=%v, model dels=%v adds=%v", rc.Dels, rc.Adds, realIDs(m, dels), realIDs(m, adds))
 			}
+			// The property is about data, not objects: a value the child deleted since the
+			// common ancestor must not survive the merge inside another object of the parent
+			// (e.g. one the parent compacted it into).  For every value v the child removed on
+			// balance (fewer copies in the child than at the ancestor), the parent must end up
+			// with that many fewer copies than it had (never below zero: it may have removed
+			// them itself).
+			cnt := func(vals []string) map[string]int {
+				n := map[string]int{}
+				for _, v := range vals {
+					n[v]++
+				}
+				return n
+			}
+			ca, cc, cp := cnt(m.values(base)), cnt(m.values(child)), cnt(m.values(parent))
 			m.newCommit(op.Branch, &mCommit{Adds: adds, Dels: dels, Real: rc.ID})
+			after := cnt(m.values(m.Branches[op.Branch]))
+			for v, na := range ca {
+				if removed := na - cc[v]; removed > 0 {
+					want := cp[v] - removed
+					if want < 0 {
+						want = 0
+					}
+					if after[v] > want {
+						return fmt.Sprintf("merge succeeded but a value the child deleted since the common ancestor survives in the parent: %s (copies: ancestor %d, child %d, parent before %d, parent after %d)", v, na, cc[v], cp[v], after[v])
+					}
+				}
+			}
 			return ""
 		}}, nil
 	case "vacuum":
@@ -687,6 +732,46 @@ func (cfg *hConfig) audit(t *testing.T, ctx context.Context, n *hNode, real *rLa
 				}
 			}
 		}
+		if isTip {
+			// the same scan planned for one scan worker and for three (the default follows GOMAXPROCS)
+			for _, par := range []int{1, 3} {
+				var vals []zed.Value
+				var err error
+				bubble(t, func() {
+					vsched.SetCurrent(-2)
+					l, oerr := lk.Open(ctx, lk.NewEngine(n.store.Clone(), "q", nil))
+					if oerr != nil {
+						err = oerr
+						return
+					}
+					vals, err = lakeQueryVals1(ctx, l, fmt.Sprintf("from %s@%s", hPool, rev), true, par)
+				})
+				res.Queries++
+				if err != nil {
+					fail(fmt.Sprintf("%s-query-failed at parallelism %d: %s", what, par, symClass(errClass(err))), map[string]any{"rev": rev})
+					return
+				}
+				got := formatAll(vals)
+				if !sameMultiset(got, want) {
+					fail(fmt.Sprintf("%s-contents-differ-from-model at parallelism %d", what, par), map[string]any{"got": got, "want": want})
+					return
+				}
+				// (into the comparator's context, like the scans above)
+				for i, s := range got {
+					v, perr := zson.ParseValue(zctx, s)
+					if perr != nil {
+						t.Fatalf("harness: reparse %s: %v", s, perr)
+					}
+					vals[i] = v
+				}
+				for i := 1; i < len(vals); i++ {
+					if cmp.Compare(vals[i-1], vals[i]) > 0 {
+						fail(fmt.Sprintf("scan-not-in-pool-key-order at parallelism %d", par), map[string]any{"got": formatAll(vals)})
+						return
+					}
+				}
+			}
+		}
 	}
 	for b, tip := range m.Branches {
 		check("branch", b, tip, true)
@@ -700,6 +785,69 @@ func (cfg *hConfig) audit(t *testing.T, ctx context.Context, n *hNode, real *rLa
 			res.OldCommitQueries++
 			check("old-commit", c.Real, id, false)
 		}
+	}
+	// A reader that stays open (warm caches): one handle reads every branch tip and then
+	// every commit, oldest first; a second handle reads the commits newest first and then
+	// the tips.  What a commit shows must not depend on what the handle has read before.
+	var ids []int
+	for id := range m.Commits {
+		ids = append(ids, id)
+	}
+	sort.Ints(ids)
+	var branches []string
+	for b := range m.Branches {
+		branches = append(branches, b)
+	}
+	sort.Strings(branches)
+	for pass := 0; pass < 2 && len(viol) == 0; pass++ {
+		bubble(t, func() {
+			vsched.SetCurrent(-2)
+			l, err := lk.Open(ctx, lk.NewEngine(n.store.Clone(), "warm", nil))
+			if err != nil {
+				fail("warm-handle-open-failed: "+symClass(errClass(err)), nil)
+				return
+			}
+			readTips := func() {
+				for _, b := range branches {
+					l.Query(ctx, fmt.Sprintf("from %s@%s", hPool, b))
+					res.Queries++
+				}
+			}
+			order := append([]int(nil), ids...)
+			if pass == 0 {
+				readTips()
+			} else {
+				for i, j := 0, len(order)-1; i < j; i, j = i+1, j-1 {
+					order[i], order[j] = order[j], order[i]
+				}
+			}
+			for _, id := range order {
+				c := m.Commits[id]
+				skip := false
+				objs, _ := m.snap(id)
+				for o := range objs {
+					if m.Vacuumed[o] {
+						skip = true
+					}
+				}
+				if skip {
+					continue
+				}
+				got, err := l.Query(ctx, fmt.Sprintf("from %s@%s", hPool, c.Real))
+				res.Queries++
+				if err != nil {
+					fail("commit-unreadable-on-a-warm-handle: "+symClass(errClass(err)), map[string]any{"commit": c.Real, "pass": pass})
+					return
+				}
+				if want := m.values(id); !sameMultiset(got, want) {
+					fail("commit-shows-other-data-on-a-warm-handle", map[string]any{"commit": c.Real, "pass": pass, "got": got, "want": want})
+					return
+				}
+			}
+			if pass == 1 {
+				readTips()
+			}
+		})
 	}
 	return viol
 }
